@@ -63,6 +63,8 @@ def harnesses(tier, seed, active_kf=()):
         else [("ZOO_HOSTILE_Q", "q")]
     k = 3.0 if thorough else 1.0
     for e in entries():
+        if e["tier"] == "thorough" and not thorough:
+            continue
         out.append(mk("C08.%s.sym" % e["name"], e["params"], BODY_A.format(spec=e["spec"], val=e["val"]),
                       covers=("total",), pre=e["pre_light"], timeout=e["timeout"] * 1.5 * k, functions=FUNCS,
                       prelude=PRELUDE, bounds=bounds))
@@ -77,7 +79,7 @@ def harnesses(tier, seed, active_kf=()):
                 zpre.append("len(sub) <= 1 and len(v) <= 1")
         if not thorough and e["name"] in QUICK_SKIP_ZOO:
             continue
-        for zoo, tag in chunks:
+        for zoo, tag in (chunks if not e["name"].startswith("gen") else [("ZOO_HOSTILE_Q", "q")]):
             out.append(mk("C08.%s.zoo%s" % (e["name"], tag), e["params"] + ", pos: int, zi: int",
                           BODY_B.format(spec=e["spec"], val=e["val"], zoo=zoo),
                           covers=("total",), pre=zpre, timeout=e["timeout"] * 2 * k,
